@@ -14,7 +14,7 @@ import warnings
 from .engine import HarnessError, SymStr, Unsupported, sym_value
 from .tree import ParsedStatement, default_resolver, parse_one
 
-_state = {"scripts": {}, "trees": {}, "installed": False, "counter": 0}
+_state = {"scripts": {}, "trees": {}, "roots": {}, "installed": False, "counter": 0}
 
 
 def _install():
@@ -45,6 +45,27 @@ def _install():
         t = _state["trees"].get(_key(sql))
         if t is not None:
             return list(t)
+        root = _state["roots"].get(_key(sql))
+        if root is not None:
+            # ROOT mode (T-SQL scripts without semicolons): the repository's own function walks the pre-parsed, symbolised
+            # parse tree of the WHOLE script (file / batch / statement segments are the parser's); only sqlfluff's Linter as
+            # seen by the analyzer module is replaced, by an object handing that tree out
+            class _Parsed:
+                violations = []
+                tree = root
+
+            class _Linter:
+                def __init__(self, *a, **k):
+                    pass
+
+                def parse_string(self, text, *a, **k):
+                    return _Parsed()
+            real_linter = an_mod.Linter
+            an_mod.Linter = _Linter
+            try:
+                return real_list(self, sql)
+            finally:
+                an_mod.Linter = real_linter
         if isinstance(sql, SymStr) and not sql.concrete():
             raise Unsupported("sqlfluff parse of symbolic text")
         return real_list(self, sql.plain() if isinstance(sql, SymStr) else sql)
@@ -63,9 +84,13 @@ def _key(sql):
 class LiftedScript:
     """a script of template statements parsed under one dialect"""
 
-    def __init__(self, stmts, dialect="ansi", fresh=True):
+    def __init__(self, stmts, dialect="ansi", fresh=True, seps=None):
         _install()
         self.dialect = dialect
+        # seps: what stands between the statements of a T-SQL script written without semicolons (a line break, a GO batch
+        # separator): when given, runner(tsql=True) works in ROOT mode (see lx_list)
+        self.seps = list(seps) if seps is not None else None
+        self._root_ps = None
         # a statement given as None stands for text that parses without violations but yields NO statement segment
         # (a templater comment, a bare T-SQL GO, ...): its handle maps to an empty segment list
         self.empty_at = [i for i, s in enumerate(stmts) if s is None]
@@ -97,7 +122,14 @@ class LiftedScript:
         _state["scripts"][self.script_handle] = handles
         for h, ps in zip(self.handles, self.stmts):
             _state["trees"][h] = [ps.seg]
-        if tsql:
+        _state["roots"].pop(self.script_handle, None)
+        if tsql and self.seps is not None:
+            rp = self.root_statement()
+            rp.symbolise(res, anycase_tag=("%s_root" % anycase_tag) if anycase_tag else None)
+            _state["roots"][self.script_handle] = rp.seg
+            _state["trees"].pop(self.script_handle, None)
+            _state["scripts"][self.script_handle] = [self.script_handle]
+        elif tsql:
             # T-SQL no-semicolon mode: the script itself goes to the parse entry point, which yields every statement;
             # sqlparse's split (no semicolons in such a script) would see ONE piece
             _state["trees"][self.script_handle] = [ps.seg for ps in self.stmts]
@@ -109,6 +141,35 @@ class LiftedScript:
         with warnings.catch_warnings():
             warnings.simplefilter("ignore")
             return LineageRunner(self.script_handle, dialect=self.dialect, **kw)
+
+    def script_text(self):
+        out = self.stmts[0].sql
+        for sp, ps in zip(self.seps, self.stmts[1:]):
+            out += sp + ps.sql
+        return out
+
+    def root_statement(self):
+        """the whole script parsed once by the real sqlfluff (the analyzer's own configuration) into its root segment"""
+        if self._root_ps is None:
+            from sqlfluff.core import Linter
+            from sqllineage.core.parser.sqlfluff import analyzer as an_mod
+
+            from .tree import ParsedStatement
+
+            text = self.script_text()
+            an = an_mod.SqlFluffLineageAnalyzer(".", self.dialect)
+            parsed = Linter(config=an._sqlfluff_config).parse_string(text)
+            bad = [str(v) for v in parsed.violations if type(v).__name__ in ("SQLLexError", "SQLParseError")]
+            if bad or parsed.tree is None:
+                raise HarnessError("script template does not parse under %s: %r %s" % (self.dialect, text, bad[:2]))
+            self._root_ps = ParsedStatement(text, self.dialect, parsed.tree)
+        return self._root_ps
+
+    def render_script(self, concrete_names):
+        out = self.stmts[0].render(concrete_names)
+        for sp, ps in zip(self.seps, self.stmts[1:]):
+            out += sp + ps.render(concrete_names)
+        return out
 
     def render(self, concrete_names, resolve_text=None, sep=";\n"):
         return sep.join(ps.render(concrete_names, resolve_text) for ps in self.stmts)
